@@ -198,14 +198,14 @@ def fen_white(pos):
     return white if nm % 2 == 0 else not white
 
 
-def track(steps, variant=(0, 0, 0)):
+def track(steps, variant=(0, 0, 0, 0)):
     """Follow the generation counter and the contempt values under which searches ran
     (mirrors EngineControl::startThread / getWhiteContempt / TranspositionTable::reSize; used
     only to CLASSIFY sessions, never to decide a verdict by itself).  Returns one record per
     probe search: generation the probe runs with, number of earlier searches, the set of
     white-contempt values of earlier searches whose eval-cache entries may still be there,
     and the probe's own white contempt."""
-    g_fix, e_fix, k_fix = variant
+    g_fix, e_fix, k_fix = variant[:3]
     opts = {n: d for n, (d, _) in OPTIONS.items()}
     gen = 0
     size = opts["Hash"]
